@@ -673,6 +673,23 @@ func evalCall(fn string, args []any) Res {
 		return Res{V: int64(fl)}
 	case "boolToString":
 		return Res{V: strconv.FormatBool(args[0].(bool))}
+	case "floatToFormattedString":
+		fl, ok := args[0].(float64)
+		f, ok2 := args[1].(string)
+		prec, ok3 := args[2].(int64)
+		if !ok || !ok2 || !ok3 || len(f) != 1 {
+			return Res{St: EvalErr, Why: "floatToFormattedString: bad arguments;"}
+		}
+		// "converts a floating point number to a string according to the specified formatting directive
+		// and precision" (strconv.FormatFloat)
+		return Res{V: strconv.FormatFloat(fl, f[0], int(prec), 64)}
+	case "floatToString":
+		fl, ok := args[0].(float64)
+		if !ok {
+			return Res{St: EvalErr, Why: "floatToString on non-float;"}
+		}
+		// "the base-10 representation of the provided floating point value formatted without an exponent"
+		return Res{V: strconv.FormatFloat(fl, 'f', -1, 64)}
 	}
 	return Res{St: EvalErr, Why: "unknown function " + fn + ";"}
 }
